@@ -752,8 +752,21 @@ func (x *Xlat) hasContract(fi *FuncInfo) bool {
 	return len(s.Requires) > 0 || len(s.Ensures) > 0 || s.HasMod || s.Trusted != "" || s.Pure || s.NoPanic
 }
 
+func (x *Xlat) nnArgs(st *State, out *Outcomes, fi *FuncInfo, args []Arg, pos token.Pos) {
+	if !x.nn {
+		return
+	}
+	ps := x.paramVars(fi)
+	for i, p := range ps {
+		if i < len(args) && args[i].v != nil && args[i].v.Sort == SRef && p != nil && isPtrToStruct(p.Type()) {
+			x.safety(st, out, "nilarg", Not(Eq(args[i].v, TNull)), pos, fmt.Sprintf("nil passed for parameter %s of %s", p.Name(), fi.Key))
+		}
+	}
+}
+
 func (x *Xlat) callModule(st *State, fr *Frame, out *Outcomes, fi *FuncInfo, args []Arg, pos token.Pos) []*Term {
 	if x.hasContract(fi) {
+		x.nnArgs(st, out, fi, args, pos)
 		return x.callContract(st, fr, out, fi, args, pos)
 	}
 	if !x.inCallChain(fr, fi) && fr.depth < maxInlineDepth {
@@ -769,6 +782,7 @@ func (x *Xlat) callModule(st *State, fr *Frame, out *Outcomes, fi *FuncInfo, arg
 		x.obls = x.obls[:nobl]
 		out.pan = savedPan
 	}
+	x.nnArgs(st, out, fi, args, pos)
 	return x.callHavoc(st, fr, out, fi, args, pos)
 }
 
